@@ -54,6 +54,9 @@ isal_self_tests(void)
 
         ret |= _sha_self_tests();
 
+        /* The status word only knows "passed" (0) and "failed" (1) */
+        ret = (ret != 0);
+
         asm_set_self_tests_status(ret);
 
         if (ret == 0)
